@@ -135,6 +135,105 @@ def arity_guard(es, s, repo):
     return None
 
 
+def _tri(test, env, konst):
+    """three-valued truth of a condition by interval arithmetic: True / False / None (unknown)"""
+    if isinstance(test, ast.UnaryOp) and isinstance(test.op, ast.Not):
+        v = _tri(test.operand, env, konst)
+        return None if v is None else (not v)
+    if isinstance(test, ast.BoolOp):
+        vs = [_tri(v, env, konst) for v in test.values]
+        if isinstance(test.op, ast.And):
+            return False if any(v is False for v in vs) else (True if all(v is True for v in vs) else None)
+        return True if any(v is True for v in vs) else (False if all(v is False for v in vs) else None)
+    if isinstance(test, ast.Compare):
+        res = []
+        left = test.left
+        for op, right in zip(test.ops, test.comparators):
+            a, b = interval(konst(left), env), interval(konst(right), env)
+            left = right
+            if a is None or b is None:
+                res.append(None)
+                continue
+            r = None
+            if isinstance(op, ast.Lt):
+                r = True if a[1] < b[0] else (False if a[0] >= b[1] else None)
+            elif isinstance(op, ast.LtE):
+                r = True if a[1] <= b[0] else (False if a[0] > b[1] else None)
+            elif isinstance(op, ast.Gt):
+                r = True if a[0] > b[1] else (False if a[1] <= b[0] else None)
+            elif isinstance(op, ast.GtE):
+                r = True if a[0] >= b[1] else (False if a[1] < b[0] else None)
+            elif isinstance(op, ast.Eq):
+                r = True if a[0] == a[1] == b[0] == b[1] else (False if a[1] < b[0] or b[1] < a[0] else None)
+            elif isinstance(op, ast.NotEq):
+                r = False if a[0] == a[1] == b[0] == b[1] else (True if a[1] < b[0] or b[1] < a[0] else None)
+            res.append(r)
+        return False if any(r is False for r in res) else (True if all(r is True for r in res) else None)
+    return None
+
+
+def dead_raise(site, repo, es):
+    """the raise sits in a branch that interval arithmetic decides is never taken: operands are bounded by the ranges
+    established where the attributes are stored (`x in range(a, b)` guards of every store), the component ranges of
+    fn2gsm_time (T1 0..2047, T2 0..25, T3 0..50, TC 0..7) and folded class constants"""
+    node = site.node
+    fd = enclosing_func(node)
+    if fd is None:
+        return None
+    env = {"t1": (0, 2047), "t2": (0, 25), "t3": (0, 50), "tc": (0, 7)}
+    per = {}
+    for st in es.stores:
+        try:
+            cfg = st.cfg
+            sb = branch_subst(cfg.func.body)
+            val = canon(st.value, sb)
+            rng = None
+            for t, p_ in guard_literals(cfg, cfg.node_of(st.node), sb):
+                import re as _re
+                m_ = _re.fullmatch(_re.escape(val) + r" in range\((-?\d+), (-?\d+)\)", t)
+                if m_ and p_:
+                    rng = (int(m_.group(1)), int(m_.group(2)) - 1)
+            per.setdefault(st.attr, []).append(rng)
+        except AnalysisError:
+            per.setdefault(st.attr, []).append(None)
+    for a, rs in per.items():
+        if rs and all(r is not None for r in rs):
+            env["self." + a] = (min(r[0] for r in rs), max(r[1] for r in rs))
+    subst = deep_subst(fd)
+    cur = fd
+    while cur is not None and not isinstance(cur, ast.ClassDef):
+        cur = getattr(cur, "_parent", None)
+    ci = site.mod.classes.get(cur.name) if cur is not None else None
+    from pyfront import _Subst
+
+    def konst(e):
+        e2 = _Subst(subst).visit(_clone(e))
+
+        class K(ast.NodeTransformer):
+            def visit_Attribute(self_, n_):
+                t_ = canon(n_)
+                if t_ in env:
+                    return n_
+                try:
+                    v_ = Ev(repo, site.mod, self_cls=ci).ev(n_)
+                    if isinstance(v_, int) and not isinstance(v_, bool) and n_.attr.isupper():
+                        return ast.Constant(value=v_)
+                except (Unknown, Raised, RecursionError):
+                    pass
+                return n_
+        return K().visit(e2)
+    child, par = node, getattr(node, "_parent", None)
+    while par is not None and par is not fd:
+        if isinstance(par, ast.If):
+            pol = any(child is x for x in par.body)
+            v = _tri(par.test, env, konst)
+            if v is not None and v != pol:
+                return "unreachable: `%s` is always %s (interval arithmetic over validated attribute ranges)" % (
+                    canon(par.test)[:50], v)
+        child, par = par, getattr(par, "_parent", None)
+    return None
+
+
 def report_sites(L, rule, es, repo, what, accept=None):
     groups = {}
     order = []
@@ -159,6 +258,8 @@ def report_sites(L, rule, es, repo, what, accept=None):
                 why = arity_guard(es, o, repo)
             if why is None and accept is not None:
                 why = accept(o)
+            if why is None and o.kind == "raise":
+                why = dead_raise(o, repo, es)
             if why is None:
                 bad = o
                 break
@@ -323,8 +424,41 @@ def store_establishes(st, need, repo):
         node = cfg.node_of(st.node)
     except AnalysisError:
         return False, []
+    # the stored value is a local with several definitions (e.g. a default on one path, a parsed and validated
+    # number on the other): decide per reaching definition, with the guards on the paths from that definition
+    if isinstance(st.value, ast.Name):
+        nm = st.value.id
+        defs = [n_ for n_ in ast.walk(fd) if isinstance(n_, ast.Assign) and len(n_.targets) == 1 and
+                isinstance(n_.targets[0], ast.Name) and n_.targets[0].id == nm]
+        if len(defs) >= 2:
+            from pyfront import guard_literals_from
+            verdicts, shown = [], []
+            for d in defs:
+                try:
+                    dn = cfg.node_of(d)
+                except AnalysisError:
+                    continue
+                rel_ = guard_literals_from(cfg, dn, node)
+                if rel_ is None:
+                    continue
+                # killed by another definition on every path?  (conservative: keep it)
+                if isinstance(d.value, ast.Constant) and isinstance(d.value.value, int) and not isinstance(d.value.value, bool):
+                    c = d.value.value
+                    okc = {"ge0": c >= 0, "ne0": c != 0, "range": need[0] == "range" and need[1] <= c <= need[2]}.get(need[0], False)
+                    verdicts.append(okc)
+                    shown.append("%s = %d" % (nm, c))
+                    continue
+                ok_, _ = _need_in(need, nm, rel_)
+                verdicts.append(ok_)
+                shown.append("%s = %s under %s" % (nm, canon(d.value)[:30], lit_fmt(rel_)))
+            if verdicts:
+                return all(verdicts), shown
     val = canon(st.value, subst)
     lits = guard_literals(cfg, node, subst)
+    return _need_in(need, val, lits)
+
+
+def _need_in(need, val, lits):
     fl = lit_fmt(lits)
     if need[0] == "ge0":
         return ((val + " < 0", False) in lits) or (("0 < " + val, True) in lits), fl
@@ -337,6 +471,10 @@ def store_establishes(st, need, repo):
         inr = any(p and t == "%s in range(%d, %d)" % (val, lo, hi + 1) for t, p in lits)
         return (ok_lo and ok_hi) or inr, fl
     if need[0] == "nonempty":
+        import re as _re
+        m_ = _re.fullmatch(r"(?:list|tuple|sorted)\((.+)\)", val)
+        if m_:
+            val = m_.group(1)       # a copy of a sequence is as long as the sequence
         return (("0 == len(%s)" % val, False) in lits) or ((val, True) in lits) or (("0 < len(%s)" % val, True) in lits), fl
     return False, fl
 
@@ -496,7 +634,7 @@ def r4_attrs(L, repo, es):
 
 
 def need_txt(need):
-    return {"ge0": "value >= 0", "ne0": "value != 0"}.get(need[0], "value in %s..%s" % (need[1:3] if len(need) > 2 else ("?", "?")))
+    return {"ge0": "value >= 0", "ne0": "value != 0", "nonempty": "a non-empty sequence"}.get(need[0], "value in %s..%s" % (need[1:3] if len(need) > 2 else ("?", "?")))
 
 
 def r5_capture(L, repo):
